@@ -51,12 +51,30 @@ pub fn worker(check: &str, tier: &str, seed: u64, stride: u64, start: u64, runs:
             o.flush().unwrap();
         }
         let case = generate(check, tier, seed, run);
-        let rep = judge(check, tier, &case, seed, run);
+        let mut rep = judge(check, tier, &case, seed, run);
+        // C06 invariant ("a later model run in the same process starts clean"): after a model
+        // run has returned or unwound to the harness, this OS thread must not be left in the
+        // "panicking" state (that happens when a modeled thread is abandoned in the middle of
+        // unwinding a panic: its stack is leaked and the panic count never drops)
+        let dirty = std::thread::panicking();
+        if dirty {
+            let has_unwind_lock = case.program.threads.iter().flatten().any(|o| matches!(o.inner(), crate::dsl::Op::UnwindLock { .. }));
+            rep.violations.push(crate::cases::Violation {
+                kind: "process_dirty".into(),
+                detail: "after the model run std::thread::panicking() stays true on the calling thread: a later model run in this process does not start clean".into(),
+                known: if has_unwind_lock { Some("K7-panicking-flag-shared-by-modeled-threads".to_string()) } else { None },
+                evidence: serde_json::json!({}),
+            });
+        }
         let v = report_json(run, &case, &rep, run < 3 * stride);
         {
             let mut o = out.lock();
             writeln!(o, "RES {}", v).unwrap();
             o.flush().unwrap();
+        }
+        if dirty {
+            // later runs must not inherit the state: the supervisor starts a fresh worker
+            std::process::exit(3);
         }
         run += stride;
     }
@@ -223,6 +241,15 @@ pub fn supervise(check: &str, tier: &str) -> i32 {
                         continue;
                     }
                 } else if !ok && ws[i].next_start < runs {
+                    let code = status.as_ref().ok().and_then(|s| s.code());
+                    if code == Some(3) {
+                        // the worker retired itself (process state left dirty by its last run)
+                        let next = ws[i].next_start;
+                        let child = spawn_worker(check, tier, seed, nworkers, next, runs, i, &tx);
+                        ws[i].child = child;
+                        ws[i].began = Instant::now();
+                        continue;
+                    }
                     harness_errors.push(format!("worker {} exited abnormally between runs", i));
                 }
                 ws[i].done = true;
@@ -395,32 +422,28 @@ pub fn supervise(check: &str, tier: &str) -> i32 {
         nviol += 1;
         if i < 5 {
             let path = replay_dir.join(format!("{}-{}-{}.json", check, seed, run));
-            // minimise (not for aborts / hangs: they would take this process down)
+            // the replay file first; then minimise in a child process (a candidate program may
+            // abort or hang the process that runs it) which rewrites the file on success
+            write_replay(&path, check, tier, seed, *run, res);
             let kind = viol["kind"].as_str().unwrap_or("").to_string();
-            let mut res = res.clone();
             if kind != "abort" && kind != "hang" && std::env::var("VERIF_NO_SHRINK").is_err() {
-                if let (Ok(program), Ok(config)) = (
-                    serde_json::from_value::<crate::dsl::Program>(res["case"]["program"].clone()),
-                    serde_json::from_value::<crate::dsl::Config>(res["case"]["config"].clone()),
-                ) {
-                    let case = Case { program, config };
-                    let sh = crate::shrink::shrink(check, tier, &case, seed, *run, &kind, viol["known"].as_str(), 250);
-                    if sh.ops_after < sh.ops_before {
-                        let rep = judge(check, tier, &sh.case, seed, *run);
-                        res["minimised"] = json!({
-                            "program_text": sh.case.program.text(),
-                            "case": {"program": sh.case.program, "config": sh.case.config},
-                            "violations": rep.violations,
-                            "ops_before": sh.ops_before,
-                            "ops_after": sh.ops_after,
-                            "evaluations": sh.evaluations,
-                        });
-                        println!("  minimised run {} from {} to {} ops: {}", run, sh.ops_before, sh.ops_after, sh.case.program.text());
+                let exe = std::env::current_exe().unwrap();
+                if let Ok(mut child) = Command::new(exe).args(["shrink", path.to_str().unwrap_or(""), &kind]).stdin(Stdio::null()).stderr(Stdio::null()).spawn() {
+                    let t0 = Instant::now();
+                    loop {
+                        match child.try_wait() {
+                            Ok(Some(_)) => break,
+                            Ok(None) if t0.elapsed() > Duration::from_secs(180) => {
+                                let _ = child.kill();
+                                let _ = child.wait();
+                                break;
+                            }
+                            Ok(None) => std::thread::sleep(Duration::from_millis(50)),
+                            Err(_) => break,
+                        }
                     }
                 }
             }
-            let res = &res;
-            write_replay(&path, check, tier, seed, *run, res);
             println!("  violation kind={} run={} : {}", viol["kind"].as_str().unwrap_or("?"), run, viol["detail"].as_str().unwrap_or(""));
             println!("  program: {}", res["program"].as_str().unwrap_or(""));
             lines.push(format!("VIOLATION property={} replay={}", check, path.display()));
@@ -505,6 +528,51 @@ fn write_replay(path: &std::path::Path, check: &str, tier: &str, seed: u64, run:
         "minimised": res["minimised"],
     });
     let _ = std::fs::write(path, serde_json::to_string_pretty(&v).unwrap());
+}
+
+/// `sim shrink <replay file> <kind>`: minimise the case of a replay file (first unknown violation of
+/// that kind) and rewrite the file with a "minimised" section.
+pub fn shrink_file(file: &str, kind: &str) -> i32 {
+    crate::interp::install_quiet_panic_hook();
+    let s = match std::fs::read_to_string(file) {
+        Ok(s) => s,
+        Err(_) => return 2,
+    };
+    let mut v: Value = match serde_json::from_str(&s) {
+        Ok(v) => v,
+        Err(_) => return 2,
+    };
+    let check = v["check"].as_str().unwrap_or("").to_string();
+    let tier = v["tier"].as_str().unwrap_or("quick").to_string();
+    let seed = v["verif_seed"].as_u64().unwrap_or(1);
+    let run = v["run"].as_u64().unwrap_or(0);
+    let viol = match v["violations"].as_array().and_then(|a| a.iter().find(|x| x["kind"].as_str() == Some(kind) && x["known"].is_null())) {
+        Some(x) => x.clone(),
+        None => return 0,
+    };
+    let (program, config) = match (
+        serde_json::from_value::<crate::dsl::Program>(v["case"]["program"].clone()),
+        serde_json::from_value::<crate::dsl::Config>(v["case"]["config"].clone()),
+    ) {
+        (Ok(p), Ok(c)) => (p, c),
+        _ => return 2,
+    };
+    let case = Case { program, config };
+    let sh = crate::shrink::shrink(&check, &tier, &case, seed, run, kind, viol["detail"].as_str().unwrap_or(""), None, 250);
+    if sh.ops_after < sh.ops_before {
+        let rep = judge(&check, &tier, &sh.case, seed, run);
+        v["minimised"] = json!({
+            "program_text": sh.case.program.text(),
+            "case": {"program": sh.case.program, "config": sh.case.config},
+            "violations": rep.violations,
+            "ops_before": sh.ops_before,
+            "ops_after": sh.ops_after,
+            "evaluations": sh.evaluations,
+        });
+        let _ = std::fs::write(file, serde_json::to_string_pretty(&v).unwrap());
+        println!("  minimised run {} from {} to {} ops: {}", run, sh.ops_before, sh.ops_after, sh.case.program.text());
+    }
+    0
 }
 
 /// Re-run a replay file: exit 1 with the VIOLATION line iff the same violation kind reproduces.
